@@ -79,6 +79,8 @@ type Event struct {
 	// datastore write failure inside a DeleteRange (variant dfail): the failed attempt, and the retry that follows it
 	DsFault      bool `json:"dsFault"`
 	AfterDsFault bool `json:"afterDsFault"`
+	// CtxRefused: this deletion ran with a caller deadline over a datastore that refuses operations on a done context
+	CtxRefused bool `json:"ctxRefused"`
 }
 
 // W is an abstract write-log entry (same shape as Store.tla's writes).
@@ -108,6 +110,7 @@ type env struct {
 	callMu sync.Mutex
 	failAt int
 	slow   bool // timeout mode: every handler invocation takes one (virtual) second
+	slowCtx bool // ... and gives up when its context is done; the datastore refuses operations on a done context as well
 	failSet map[int]bool
 	panicK bool
 	up     bool
@@ -157,7 +160,17 @@ func (e *env) open() error {
 	// three handlers: the first and the third always succeed, the second fails for failAt
 	s.OnDelete(func(ctx context.Context, h uint64) error {
 		_, err := s.GetByHeight(ctx, h)
-		if e.slow {
+		if e.slow && e.slowCtx {
+			// the handler honours its context: it gives up when the deletion's share of the deadline is over
+			select {
+			case <-time.After(time.Second):
+			case <-ctx.Done():
+				e.callMu.Lock()
+				defer e.callMu.Unlock()
+				e.calls = append(e.calls, call{H: int(h), Handler: 1, Readable: err == nil, Out: "err"})
+				return ctx.Err()
+			}
+		} else if e.slow {
 			time.Sleep(time.Second)
 		}
 		e.callMu.Lock()
@@ -517,13 +530,25 @@ func (e *env) doOp(op map[string]any, idx int, v variant, skipWait, last bool) (
 						j++
 					}
 				}
+				j0 := j
 				if j == 0 {
 					j = 1
 				}
 				cancel()
 				e.failAt = 0
 				e.slow = true
+				// every other timeout row: handler and datastore both honour the context (the deletion stops inside the
+				// handler of failAt, with the last 5% of the caller's deadline left for the bookkeeping)
+				// (plain flavour only: a batching datastore that refuses a done context refuses the deletion's final commit,
+				// which legitimately undoes the whole call — a different behaviour, not a variant of this one)
+				e.slowCtx = (idx+ev.FailAt)%2 == 0 && !e.cfg.ctx
+				e.rs.HonourCtx = e.slowCtx
+				ev.CtxRefused = e.slowCtx
 				d := time.Duration(float64(time.Duration(j)*time.Second-500*time.Millisecond) / 0.95)
+				if e.slowCtx {
+					// the deletion's share of the deadline ends half a second into the handler of failAt
+					d = time.Duration(float64(time.Duration(j0)*time.Second+500*time.Millisecond) / 0.95)
+				}
 				ctx, cancel = context.WithTimeout(bg, d)
 			}
 			if (v.parallel && last) || mbt.Bool(op, "par") {
@@ -535,7 +560,8 @@ func (e *env) doOp(op map[string]any, idx int, v variant, skipWait, last bool) (
 			}
 			cancel()
 			e.failAt = 0
-			e.slow = false
+			e.slow, e.slowCtx = false, false
+			e.rs.HonourCtx = false
 			e.failSet = nil
 		case "stop":
 			err = e.stop()
